@@ -234,6 +234,27 @@ int main(int argc, char** argv) {
         wphase.store(2);
         for (auto& th : wts) th.join();
       }
+      // over the socket: read, register a NEW counter with value 0 (what initializeCoreStats and the kill plugins do),
+      // read again - the second reply must list it; and a counter whose name needs JSON escaping must survive the trip
+      {
+        Oomd::StatsClient client(path);
+        auto rd = [&](int id) {
+          evEmit(J().str("e", "Call").num("id", id).str("op", "getAll").str("key", "").num("val", 0));
+          auto mm = client.getStats();
+          if (mm) evEmit(J().str("e", "Ret").num("id", id).raw("res", mapJson(*mm)));
+          else evEmit(J().str("e", "Abort").str("why", "client").str("detail", "getStats failed (malformed reply?)"));
+        };
+        auto st = [&](int id, const std::string& key, int val) {
+          evEmit(J().str("e", "Call").num("id", id).str("op", "set").str("key", key).num("val", val));
+          stats->set(key, val);
+          evEmit(J().str("e", "Ret").num("id", id).raw("res", "[]"));
+        };
+        rd(80001);
+        st(80002, "z.registered.with.zero", 0);
+        rd(80003);
+        st(80004, "odd \"name\\ with\ttab", 4);
+        rd(80005);
+      }
       evEmit(J().str("e", "Call").num("id", 1).str("op", "getAll").str("key", "").num("val", 0));
       auto fin = stats->getAll();
       evEmit(J().str("e", "Ret").num("id", 1).raw("res", mapJson(fin)));
